@@ -75,6 +75,30 @@ theorem lostWakeup_reaches_wedged (c : LM.Cfg) (hc : c.cap = 1) :
   simp at hc; subst hc
   cases neg <;> decide
 
+/-- **heartbeat_never_stops**: the model's heartbeat is a goroutine that lives as long as the pool —
+    its two steps are enabled in every state of both pools, whatever happened before (in particular
+    after rounds that found nobody waiting), so `lowmem_waiter_resumes` / `std_waiter_resumes`, which
+    hold in EVERY reachable state, apply after idle periods too. The tie exercises exactly this on the
+    real pools: two full episodes separated by idle heartbeat ticks (`corpus/C04/lost-wakeup.case`). -/
+theorem heartbeat_never_stops (c : LM.Cfg) (s : LM.St) (t : Std.St) :
+    (LM.step? c s .hbRead).isSome ∧ (LM.step? c s .hbFire).isSome ∧
+    (Std.step? t .hbRead).isSome ∧ (Std.step? t .hbFire).isSome := by
+  simp [LM.step?, Std.step?]
+
+/-- the two-episode schedule: episode 1 served normally, idle heartbeat rounds, then the window -/
+def twoEpisodes : List LM.Op :=
+  [.start 0, .inc 0, .start 1, .inc 1, .dec 1, .swInc 1, .lock 1, .check 1, .waitEnq 1,
+   .bDec 0, .bBcast 0, .relock 1, .unlock 1, .swDec 1, .inc 1, .bDec 1, .bBcast 1,
+   .hbRead, .hbFire, .hbRead, .hbFire] ++ lostWakeup
+
+/-- non-vacuity of "after idle periods": the wedge-prone state is reached again after idle rounds,
+    and the repaired heartbeat still notifies the reader there -/
+example :
+    TS.run (LM.step? (lmFixed 1)) (LM.init 2) twoEpisodes = some { wedged with gets := 3, backs := 3 } ∧
+    TS.run (LM.step? (lmFixed 1)) { wedged with gets := 3, backs := 3 } [.hbRead, .hbFire]
+      = some { wedged with gets := 3, backs := 3, pcs := [.idle, .woken] } := by
+  constructor <;> decide
+
 /-- **the unchanged tree's heartbeat** (`waiters > 0 && !eventsAvailable`): from the lost-wake-up
     state a heartbeat round does not notify the reader: it is wedged with inUse = 0, waiters = 1.
     Witness replayed on the implementation: corpus/C04/lost-wakeup.case -/
